@@ -217,7 +217,7 @@ func checkC01(r *Report, known []Finding) {
 		m, err := regexp.MatchString(p, string(h))
 		return fmt.Sprint(m, err == nil)
 	}})
-	runE2E(r, known, e2eSpec{prop: "C01", obs: obs, np: 1500, nh: 10, npT: 20000, nhT: 16, nontriv: func(w string) bool { return strings.HasPrefix(w, "true") }})
+	runE2E(r, known, e2eSpec{prop: "C01", obs: obs, np: 5000, nh: 12, npT: 24000, nhT: 16, nontriv: func(w string) bool { return strings.HasPrefix(w, "true") }})
 	replayKnownExamples(r, known, "C01")
 }
 
@@ -225,7 +225,7 @@ func checkC02(r *Report, known []Finding) {
 	r.Rule = "end-to-end: Find, FindString, FindIndex, FindStringIndex, FindReaderIndex vs regexp on patterns from corpus/mutation/grammar x haystacks derived from the pattern (valid, " +
 		"multi-byte, ill-formed, long > 100 bytes); the engines underneath are tied to the proved reference by the C14 check; non-trivial = a match exists; distinct by pattern"
 	obs := append(obsFind(), obsReader()[1])
-	runE2E(r, known, e2eSpec{prop: "C02", obs: obs, np: 1500, nh: 10, npT: 20000, nhT: 16, nontriv: func(w string) bool { return w != "nil" && w != `""` }})
+	runE2E(r, known, e2eSpec{prop: "C02", obs: obs, np: 5000, nh: 12, npT: 24000, nhT: 16, nontriv: func(w string) bool { return w != "nil" && w != `""` }})
 	c02ReverseTie(r)
 	c02RevSuffixTie(r)
 	replayKnownExamples(r, known, "C02")
